@@ -15,9 +15,19 @@ META = {
             "JoinConn's close propagation - with the policy 'a returning copy loop closes both connections' regenerated "
             "from the source - every execution after either side closes is at most eleven steps long and ends with both "
             "sides' pending reads and the reads issued afterwards returned (sideConn.Read forgets the end marker, so the "
-            "later reads end only because the websocket gets closed: stated and proved as an explicit dependency). Chunk size, buffer sizes and 19 function bodies are regenerated from /repo "
+            "later reads end only because the websocket gets closed: stated and proved as an explicit dependency); in the "
+            "interleaving model of the endpoint's read handlers (buffer heap, free pool, any number of handler threads, "
+            "any schedule) the bytes encoded into a read reply are the bytes read for that very call when the buffer is "
+            "fresh per call or released only after the encoding - the ownership skeleton (where handleRead's buffer "
+            "comes from, whether anything releases it inside the handler, whether the response aliases it, whether "
+            "serveCall encodes afterwards) is extracted from the source - and a pooled buffer released before the "
+            "encoding is refuted. Chunk size, buffer sizes and 19 function bodies are regenerated from /repo "
             "on every run; the stage models are tied to the code by differential runs evaluated in Coq, and a real "
-            "Server+endpoint per tunnel mode carries position-dependent payloads of boundary sizes both ways.",
+            "Server+endpoint per tunnel mode carries position-dependent payloads of boundary sizes both ways; the front stage "
+            "alone (TLSHelloConn on a scripted connection: a hello with bytes behind it in one segment) is read with "
+            "every caller buffer size; eight concurrent connections through one endpoint per mode carry payloads in "
+            "which every word names direction, connection and offset (oracle: each connection's bytes are a prefix of "
+            "what was written on that very connection); the corpus runs once more under the Go race detector.",
     "note": "Partial (runtime): the interleaving of the two copy loops, TCP segmentation, websocket buffering and the "
             "message reader's chunking are schedule parameters of the model, not derived from the Go runtime; the close "
             "model's rules are a reading of the code justified rule by rule and observed end to end, not extracted; "
@@ -227,6 +237,30 @@ def impl_oracle(c):
                     "data: %s" % (p["len"], p["cap"], p["n"], p["view_ok"]))
         if p["len"] > p["cap"] and p["n"] >= 0:
             return ("tunnel-read-overrun", "a read reply of %d bytes was accepted into a %d-byte buffer" % (p["len"], p["cap"]))
+    elif s == "conc":
+        g = c["conc"]
+        if g.get("setup_err"):
+            return ("e2e-setup", "could not run the concurrent connections: %s" % g["setup_err"])
+        n = len(g["conns"])
+        for cc in g["conns"]:
+            for name, d in (("application->client", cc["a2c"]), ("client->application", cc["c2a"])):
+                if not d["prefix_ok"]:
+                    if d.get("foreign"):
+                        return ("e2e-conc-crossed:%s" % g["mode"],
+                                "%s mode, %d concurrent connections through one endpoint, connection %d, %s: at offset %d "
+                                "of its stream the reader got %s - bytes written on another connection"
+                                % (g["mode"], n, cc["id"], name, d["first_diff"], d["foreign"]))
+                    return ("e2e-conc-corrupt:%s" % g["mode"],
+                            "%s mode, %d concurrent connections through one endpoint, connection %d, %s: received bytes "
+                            "are not a prefix of what was written on that connection (first wrong word at offset %d of %d)"
+                            % (g["mode"], n, cc["id"], name, d["first_diff"], d["sent"]))
+        for cc in g["conns"]:
+            for name, d in (("application->client", cc["a2c"]), ("client->application", cc["c2a"])):
+                if not d["complete"]:
+                    return ("e2e-conc-incomplete:%s" % g["mode"],
+                            "%s mode, %d concurrent connections through one endpoint, connection %d, %s: %d of %d bytes "
+                            "arrived while both sides were open (%s)"
+                            % (g["mode"], n, cc["id"], name, d["received"], d["sent"], d.get("err", "")))
     elif s == "stage":
         g = c["stage"]
         if g["name"] != "stage.example":
@@ -294,13 +328,33 @@ def run(ck):
             if line.startswith("{"):
                 cases.append(json.loads(line))
 
+    if binp:
+        # the corpus (front stage, concurrent connections, boundary sizes in every mode, both sides closing)
+        # once more under the race detector
+        rbin = ck.build_harness("c01", race=True)
+        if rbin:
+            rc, out, err = vlib.sh2([rbin, "-child", "-seed", str(ck.seed), "-n", "1" if not ck.thorough else "120",
+                                     "-e2e", "0" if not ck.thorough else "30"], timeout=1200)
+            nrace = sum(1 for line in out.splitlines() if line.startswith("{"))
+            ck.coverage["race_detector_cases"] = nrace
+            if "DATA RACE" in err:
+                i = err.index("DATA RACE")
+                ck.violation("impl:data-race", "the Go race detector reported a data race while proxied connections were "
+                             "transferring and closing", {"stderr": err[max(0, i - 20):i + 3500]})
+            elif rc != 0:
+                ck.broken.append({"what": "race-detector run failed", "detail": err[-1500:]})
+
     for c in cases:
         s = c["stream"]
         body = c.get(s)
         if body and body.get("skipped"):
             ck.coverage["e2e_skipped_after_timeouts"] = ck.coverage.get("e2e_skipped_after_timeouts", 0) + 1
             continue
-        if s == "e2e" and body:
+        if s == "conc" and body:
+            for cc in body.get("conns") or []:
+                ck.count("conc-" + body["mode"], key=("conc", c["i"], cc["id"]), trivial=False)
+                ck.coverage["e2e_bytes"] = ck.coverage.get("e2e_bytes", 0) + cc["c2a"]["received"] + cc["a2c"]["received"]
+        elif s == "e2e" and body:
             ck.count("e2e-" + body["mode"], key=("e2e", c["i"]), trivial=body["c2a"]["sent"] == 0 and body["a2c"]["sent"] == 0)
             ck.coverage["e2e_bytes"] = ck.coverage.get("e2e_bytes", 0) + body["c2a"]["received"] + body["a2c"]["received"]
         else:
